@@ -85,8 +85,27 @@ func c13r1(p *Program, r *Report) {
 			// the loop runs while a counter is below sp.Attempts(); the counter advances once per iteration (post
 			// statement) or once per launch (in the statement list of the go statement)
 			bounded := false
+			// the bound: the loop condition `c < X.Attempts()`, or a first statement `if c >= X.Attempts() { leave }`
+			var boundCond *ast.BinaryExpr
 			if fs != nil && fs.Cond != nil {
-				if be, isB := ast.Unparen(fs.Cond).(*ast.BinaryExpr); isB && (be.Op == token.LSS || be.Op == token.NEQ) && strings.HasSuffix(exprStr(be.Y), ".Attempts()") {
+				boundCond, _ = ast.Unparen(fs.Cond).(*ast.BinaryExpr)
+			} else if fs != nil && len(fs.Body.List) > 0 {
+				if ifs, isIf := fs.Body.List[0].(*ast.IfStmt); isIf && ifs.Init == nil && ifs.Else == nil && len(ifs.Body.List) > 0 {
+					leaves := false
+					switch l := ifs.Body.List[len(ifs.Body.List)-1].(type) {
+					case *ast.BranchStmt:
+						leaves = l.Tok == token.BREAK
+					case *ast.ReturnStmt:
+						leaves = true
+					}
+					if be, isB := ast.Unparen(ifs.Cond).(*ast.BinaryExpr); isB && leaves && (be.Op == token.GEQ || be.Op == token.EQL) {
+						// rewritten as the continuation condition c < X.Attempts()
+						boundCond = &ast.BinaryExpr{X: be.X, Op: token.LSS, Y: be.Y}
+					}
+				}
+			}
+			if fs != nil && boundCond != nil {
+				if be := boundCond; (be.Op == token.LSS || be.Op == token.NEQ) && strings.HasSuffix(exprStr(be.Y), ".Attempts()") {
 					if cid, isId := ast.Unparen(be.X).(*ast.Ident); isId {
 						isInc := func(st ast.Stmt) bool {
 							switch s := st.(type) {
@@ -122,6 +141,10 @@ func c13r1(p *Program, r *Report) {
 									if o == ast.Stmt(gs) {
 										near = true
 									}
+								}
+								// or once per iteration, as a statement of the loop body itself
+								if pn, isBlk := p.Parent(st).(*ast.BlockStmt); isBlk && pn == fs.Body {
+									near = true
 								}
 							}
 							return true
